@@ -8,7 +8,7 @@ tier = "quick"
 args = sys.argv[1:]
 if "--tier" in args:
     tier = args[args.index("--tier") + 1]; del args[args.index("--tier"):args.index("--tier") + 2]
-seeds = args or sorted(d for d in os.listdir(V + "/seeded") if os.path.isdir(V + "/seeded/" + d))
+seeds = args or sorted(d for d in os.listdir(V + "/seeded") if os.path.isfile(V + "/seeded/" + d + "/meta.json"))
 for s in seeds:
     d = V + "/seeded/" + s
     meta = json.load(open(d + "/meta.json"))
@@ -27,7 +27,7 @@ for s in seeds:
     print(s, prop, "exit", rc, "DETECTED by " + ",".join(hs) if rc == 1 else ("inconclusive " + ",".join(inconc) if rc == 2 else "MISSED"), flush=True)
 # table
 rows = []
-for s in sorted(d for d in os.listdir(V + "/seeded") if os.path.isdir(V + "/seeded/" + d)):
+for s in sorted(d for d in os.listdir(V + "/seeded") if os.path.isfile(V + "/seeded/" + d + "/meta.json")):
     meta = json.load(open(V + "/seeded/" + s + "/meta.json"))
     cr = meta.get("check_results", {})
     def cell(t):
